@@ -749,8 +749,8 @@ def _is_new_lock(n: ast.AST | None) -> bool:
 def lock_scope(ss: "Cls") -> tuple[bool, list[str], str]:
     """Which lock serialises the locking operations of a state store object.
 
-    Returns (per_store, locking_methods, why).  `per_store` is True only for the shape "every `async with` over a
-    lock in the class is over ONE attribute of `self`, and that attribute is a lock created by the object for itself
+    Returns (per_store, locking_methods, why).  `per_store` is True only for the shape "every `with` / `async with`
+    over an object that is not a call (and every explicit `.acquire()`) in the class is over ONE attribute of `self`, and that attribute is a lock created by the object for itself
     (a `cached_property`/`property`... whose body is `return asyncio.Lock()`, or `self.<attr> = asyncio.Lock()` in
     `__init__`), never assigned from anything else": then the lock cannot depend on the connection mode nor be shared
     with another store object.  Anything else is reported as not-per-store with the reason.
@@ -761,16 +761,18 @@ def lock_scope(ss: "Cls") -> tuple[bool, list[str], str]:
         for n in ast.walk(fn):
             if isinstance(n, (ast.AsyncWith, ast.With)):
                 for item in n.items:
-                    src = ast.unparse(item.context_expr)
-                    if "lock" not in src.lower():
-                        continue
-                    if _is_self_attr(item.context_expr):
-                        used.setdefault(item.context_expr.attr, []).append(name)  # type: ignore[attr-defined]
+                    expr = item.context_expr
+                    if isinstance(expr, ast.Call):
+                        continue  # a context manager made for the occasion (edit_state(), _connect(), closing(..)): not a lock object
+                    if _is_self_attr(expr):
+                        used.setdefault(expr.attr, []).append(name)  # type: ignore[attr-defined]
                     else:
-                        other.append(f"{name}: {src}")
-            if isinstance(n, ast.Call) and isinstance(n.func, ast.Attribute) and n.func.attr == "acquire" \
-                    and "lock" in ast.unparse(n.func.value).lower():
-                other.append(f"{name}: explicit {ast.unparse(n.func)}()")
+                        other.append(f"{name}: with {ast.unparse(expr)}")
+            if isinstance(n, ast.Call) and isinstance(n.func, ast.Attribute) and n.func.attr == "acquire":
+                if _is_self_attr(n.func.value):
+                    used.setdefault(n.func.value.attr, []).append(name)  # type: ignore[attr-defined]
+                else:
+                    other.append(f"{name}: explicit {ast.unparse(n.func)}()")
     if other:
         return False, sorted({m for ms in used.values() for m in ms}), f"locks taken other than through one attribute of self: {other[:3]}"
     if not used:
